@@ -200,8 +200,13 @@ func ZZVerifC17SemanticMonotone() {
 
 func zzRunCache(thr float32, d float64, stream bool, age int) (hit bool, forwarded int, body string) {
 	created := float64(1700000000 - 10)
-	if age == 1 {
+	switch age {
+	case 1:
 		created = float64(1700000000 - 7200)
+	case 2:
+		created = float64(1700000000 - 3600) // with the harness clock frozen at +0.5 s: half a second past the TTL
+	case 3:
+		created = float64(1700000000 - 3599) // half a second before the TTL
 	}
 	e := zzEngine(true, created)
 	p := zzProxy(e, 0)
@@ -237,6 +242,17 @@ func ZZVerifC17CachePoints() {
 		hit, fwd, _ := zzRunCache(thr, d, stream, age)
 		rt.Assert(!hit && fwd == 1, "cache: beyond twice the cache distance upstream is contacted")
 	}
+	rt.Reach("end")
+}
+
+// ZZVerifC17CacheTTL (harness clock frozen half a second after a whole second; the stored creation time has
+// one-second resolution): an entry half a second older than the TTL is not served, one half a second younger is.
+func ZZVerifC17CacheTTL() {
+	thr := zzThresholds[rt.IntRange("cacheThreshold", 0, len(zzThresholds)-1)]
+	hit, fwd, _ := zzRunCache(thr, 0, false, 2)
+	rt.Assert(!hit && fwd == 1, "cache: an entry older than the TTL (by half a second) is not served")
+	hit, fwd, body := zzRunCache(thr, 0, false, 3)
+	rt.Assert(hit && fwd == 0 && body == `{"answer":"cached"}`, "cache: an entry younger than the TTL (by half a second) is served")
 	rt.Reach("end")
 }
 
